@@ -274,7 +274,7 @@ def evaluate(model, build):
             bad.append('gradient has %d entries, the point %d'
                        % (len(g), len(xs)))
         for j, (p, gv, w) in enumerate(zip(partial, g, ws)):
-            if not PA.equal_exact(p / w, gv, WIT):
+            if not PA.same(p / w, gv, WIT):
                 bad.append('gradient entry %d is %s, (df/dx_%d)/w_%d is %s'
                            % (j, _s(gv), j, j, _s(p / w)))
                 break
@@ -292,7 +292,7 @@ def evaluate(model, build):
         want = Rat.const(0)
         for p, d in zip(partial, ds):
             want = want + p * d
-        if not PA.equal_exact(want, dv, WIT):
+        if not PA.same(want, dv, WIT):
             dbad.append('derivative(x)(d) is %s, sum_j df/dx_j d_j is %s'
                         % (_s(dv), _s(want)))
     res['der_bad'] = dbad
@@ -354,7 +354,7 @@ def numerical_gradient(rep, model):
                                 lim.d.subs({'h': Rat.const(0)}).is_zero():
                             raise Undecided('limit h -> 0 of %r' % (gv,))
                         lim = lim.subs({'h': Rat.const(0)})
-                        if not PA.equal_exact(lim, want, WIT):
+                        if not PA.same(lim, want, WIT):
                             bad = ('entry %d tends to %s for h -> 0, '
                                    '(df/dx_%d)/w_%d is %s' % (
                                        j, _s(PA.reduce_full(lim)), j, j,
